@@ -200,16 +200,24 @@ impl Preprocessor {
         desc: IncludeDesc,
     ) -> Result<(), CompileErr> {
         let name_string = decode_string(&desc.name);
-        // Terminate early checking anything with a processed include type.
-        if KNOWN_DIALECTS.contains_key(&name_string) || desc.kind.is_some() {
+        if KNOWN_DIALECTS.contains_key(&name_string) {
             return Ok(());
         }
+
+        // Files embedded as data (embed-file bin, hex, sexp) are read by the
+        // compilation too, so they are dependencies, but they contain no forms
+        // to look into.
+        let embedded_data = desc.kind.is_some();
 
         let (full_name, content) = self.opts.read_new_file(self.opts.filename(), name_string)?;
         includes.push(IncludeDesc {
             name: full_name.as_bytes().to_vec(),
             ..desc
         });
+
+        if embedded_data {
+            return Ok(());
+        }
 
         let parsed = parse_sexp(Srcloc::start(&full_name), content.iter().copied())
             .map_err(|e| CompileErr(e.0, e.1))?;
